@@ -167,4 +167,11 @@ def sRel : State := (TS.run (stepS? cfgAB) init relOps).get rel_some
 theorem rel2_some : (TS.run (stepS? cfgAB) init (relOps ++ [.append 1 [97, 10]])).isSome = true := by decide
 def sRel2 : State := (TS.run (stepS? cfgAB) init (relOps ++ [.append 1 [97, 10]])).get rel2_some
 
+/-! a1 a2 read, acked, saved `{a: 4}`; kill; the file's inode gets new content (modelled as truncate + append
+    while down); restart loads the stale entry; the scan ends before the file shows up -/
+def lateOps : List Op :=
+  relOps ++ [.save 1, .crash, .truncate 1, .append 1 [97, 10, 97, 10, 97, 10], .restart, .scanDone]
+theorem late_some : (TS.run (stepS? cfgAB) init lateOps).isSome = true := by decide
+def sLate : State := (TS.run (stepS? cfgAB) init lateOps).get late_some
+
 end FileD.PropsC03
